@@ -216,7 +216,7 @@ def triage_crash(ctx, binary, label, module, cap, episode, ops, extra):
     cache = ctx.__dict__.setdefault("triaged", {})
     if key in cache:
         return cache[key]
-    if len(cache) >= 8:
+    if len(cache) >= 16:
         return (False, "too many crashes to triage in one run")
     d = crate_dir(ctx)
     replay = ["--seed", str(ctx.seed), "--replay", "%s:%s:%s" % (module, cap, episode), "--quiet-panics"] + [e for e in extra if e != "--drop-panics"]
